@@ -53,7 +53,8 @@ META = dict(
 CLAUSES = {"setup_once_before_claims", "at_most_one_claim_per_partition", "exactly_one_claim_unless_ending",
            "claim_starts_at_committed_or_initial", "cleanup_once_after_claims_returned", "final_commit_after_cleanup",
            "consume_returns_last", "requests_carry_issued_identity", "fenced_member_rejoins_fresh",
-           "no_skip_across_sessions", "consume_hang", "close_hang", "consume_panic", "channels_closed_after_close"}
+           "no_skip_across_sessions", "consume_hang", "close_hang", "consume_panic", "channels_closed_after_close",
+           "sync_plan_complete"}   # sync_plan_complete decides part of C08 (assignments as sent through SyncGroup); vlib reports under C07
 SHUTDOWN_CLAUSES = {"consume_hang", "close_hang", "consume_panic", "channels_closed_after_close"}
 ONLY = ["group_*"]
 STRATEGIES = ["range", "roundrobin", "sticky"]
@@ -216,6 +217,11 @@ def gen_cases(ctx, out):
         for sc in shutdown_scenarios():
             f.write(json.dumps(sc, separators=(",", ":")) + "\n")
             n += 1
+        # one partition of the subscribed topic is leaderless in the metadata when the leader balances (C08 on the wire:
+        # it still has to be assigned; its claim then fails to start and ends the session - code behaviour, accepted)
+        for sc in leaderless_scenarios():
+            f.write(json.dumps(sc, separators=(",", ":")) + "\n")
+            n += 1
         # partition-count change while a session runs (configuration family, not a model action)
         for k, mode in enumerate(["drain", "ctxwait"]):
             sc = {"id": "grow-%d" % k, "fam": "grow", "np": 1 + k, "loglen": 2, "logstart": 0, "initial": -2, "auto": "slow",
@@ -287,6 +293,20 @@ def shutdown_scenarios():
     return out
 
 
+def leaderless_scenarios():
+    out = []
+    k = 0
+    for members in (1, 2, 3):
+        for strat in STRATEGIES:
+            lp = (members + k) % 3
+            clients = [_client("c%d" % (i + 1), [_sess("drain", 1, 1), _sess("drain", 1, 1)]) for i in range(members)]
+            sc = _scen("leaderless-%d-%s-p%d" % (members, strat, lp), clients, np=3, strategy=strat, leaderless=lp, nonet=False)
+            sc["fam"] = "leaderless"
+            out.append(sc)
+            k += 1
+    return out
+
+
 def collect(ctx, rs, trace, ncases):
     """STATS / VIOL of all shards + cause-level features of every violation"""
     allv = []
@@ -303,7 +323,8 @@ def collect(ctx, rs, trace, ncases):
         raise vlib.Inconclusive("trace validation evaluated %d executions, harness recorded %d" % (stats.get("traces", 0), ncases))
     # a client left in a healthy session is collateral of another client's hang; alone it means the script stalled
     hung = {v["trace"] for v in allv if v["clause"] in ("consume_hang", "close_hang", "channels_closed_after_close")}
-    stalled = [v for v in allv if v["clause"] == "scenario_stalled" and v["trace"] not in hung]
+    flagged = {v["trace"] for v in allv if v["clause"] != "scenario_stalled"}   # a stall explained by another violation
+    stalled = [v for v in allv if v["clause"] == "scenario_stalled" and v["trace"] not in hung and v["trace"] not in flagged]
     if stalled:
         raise vlib.Inconclusive("scenario stalled without a hang of the code under test (script / harness problem): %s" % stalled[:3])
     allv = [v for v in allv if v["clause"] != "scenario_stalled"]
@@ -337,6 +358,8 @@ def collect(ctx, rs, trace, ncases):
                 "claims_empty": bool(setups) and setups[-1].get("claims") == [],
                 "scenario": head.get("id"), "family": head.get("fam"), "members": head.get("members"), "auto": head.get("auto"),
                 "strategy": head.get("strategy"), "initial": head.get("initial"),
+                "reported_for": "C08" if v["clause"] == "sync_plan_complete" else "C07",
+                "plan": e.get("plan"), "parts": e.get("parts"), "plan_strategy": e.get("strategy"), "leaderless": head.get("leaderless"),
                 "event": e.get("ev"), "client": c, "err": e.get("err"), "what": e.get("what"), "site": e.get("site"),
                 "last_answer_errors": [x.get("err") for x in mine if x.get("ev") in ("join_resp", "sync_resp", "hb", "commit", "leave") and x.get("err") != "ok"][-3:],
                 "history": [{k: x[k] for k in x if k != "t"} for x in before if x.get("ev") != "hb" or x.get("err") != "ok"][-14:],
@@ -520,6 +543,8 @@ def run(ctx):
                         "data-plane fault family: ListOffsets for one assigned partition fails (NOT_LEADER / connection loss) for a whole "
                         "Consume call: the claim cannot start, which is logged (claim_fail) and accepted as a session-ending trigger; the "
                         "call must end by itself (no safety-net cancel in this family nor after Close was called)",
+                        "sync_plan_complete (property C08, reported here): every accepted SyncGroup request of the group leader is compared with "
+                        "the partitions the simulated cluster's metadata lists for the subscribed topic (leaderless ones included)",
                         "hangs are reported by a quiescence-aware watchdog (vAwait): only when the process is fully blocked",
                         "Consumer.Return.Errors=false",
                         "model bounds: <=2 members, 2 partitions (3 in simulation), log of 2-3 records, <=3 Consume calls, fault/trigger budgets <=2"],
